@@ -238,7 +238,7 @@ func (env *Env) eval(e Expr) (CVal, error) {
 				}
 				hi = h.T
 			}
-			return CVal{Term{fmt.Sprintf("(mkslc (sarr %s) (+ (soff %s) %s) (- %s %s))", base.T.S, base.T.S, lo.T.S, hi.S, lo.T.S), base.T.Sort}, base.GoT}, nil
+			return CVal{fc.slcSub(base.T, lo.T.S, hi.S), base.GoT}, nil
 		}
 		return CVal{}, fmt.Errorf("slice of sort %s", base.T.Sort)
 	case *EUn:
@@ -264,7 +264,9 @@ func (env *Env) eval(e Expr) (CVal, error) {
 			if old, ok := env.bound[qv.Name]; ok {
 				saved[qv.Name] = old
 			}
-			nm := "q$" + qv.Name
+			// every binder gets a fresh name: macro arguments may mention variables bound further out
+			fc.nquant++
+			nm := fmt.Sprintf("q$%s_%d", qv.Name, fc.nquant)
 			env.bound[qv.Name] = CVal{Term{nm, srt}, gt}
 			binders = append(binders, fmt.Sprintf("(%s %s)", nm, srt))
 			_ = typeFacts
@@ -385,6 +387,9 @@ func (env *Env) binary(x *EBin) (CVal, error) {
 	case "+", "-", "*":
 		if l.T.Sort == SString && x.Op == "+" {
 			return CVal{Term{"(str.++ " + l.T.S + " " + r.T.S + ")", SString}, l.GoT}, nil
+		}
+		if x.Op == "*" {
+			return CVal{Term{env.fc.mulTerm(l.T.S, r.T.S), SInt}, l.GoT}, nil
 		}
 		return CVal{Term{"(" + x.Op + " " + l.T.S + " " + r.T.S + ")", SInt}, l.GoT}, nil
 	case "/":
@@ -635,7 +640,11 @@ func (env *Env) call(x *ECall) (CVal, error) {
 			return CVal{}, err
 		}
 		al := fc.heapGet(env.old, "Alloc", arr(SInt, SBool))
-		return CVal{Term{fmt.Sprintf("(and (> %s 0) (not (select %s %s)))", args[0].T.S, al.S, args[0].T.S), SBool}, nil}, nil
+		cur := fc.heapGet(env.state(), "Alloc", arr(SInt, SBool))
+		if cur.S == al.S {
+			return CVal{Term{fmt.Sprintf("(and (> %s 0) (not (select %s %s)))", args[0].T.S, al.S, args[0].T.S), SBool}, nil}, nil
+		}
+		return CVal{Term{fmt.Sprintf("(and (> %s 0) (not (select %s %s)) (select %s %s))", args[0].T.S, al.S, args[0].T.S, cur.S, args[0].T.S), SBool}, nil}, nil
 	case "allocated":
 		args, err := evalArgs()
 		if err != nil {
@@ -746,6 +755,62 @@ func (env *Env) call(x *ECall) (CVal, error) {
 			return CVal{}, fmt.Errorf("unbox: %v", err)
 		}
 		return CVal{fc.e.unbox(v.T, gt), gt}, nil
+	case "call": // call("f", args...): the result of heap function f in the current state
+		if len(x.Args) < 1 {
+			return CVal{}, fmt.Errorf("call(\"f\", args...)")
+		}
+		lit, ok := x.Args[0].(*ELit)
+		if !ok || lit.Kind != "string" {
+			return CVal{}, fmt.Errorf("call(\"f\", args...): the function is named by a string literal")
+		}
+		ct := fc.e.resolveFuncKey(lit.Val, env.pkg)
+		if ct == nil {
+			return CVal{}, fmt.Errorf("call(%q): no (unique) function under contract with that name", lit.Val)
+		}
+		var args []CVal
+		for _, a := range x.Args[1:] {
+			v, err := env.eval(a)
+			if err != nil {
+				return CVal{}, err
+			}
+			args = append(args, v)
+		}
+		t, err := fc.heapFunTerm(ct, args, env.state())
+		if err != nil {
+			return CVal{}, err
+		}
+		var rt types.Type
+		if fn := fc.e.funcs[ct.Key]; fn != nil {
+			rt = fn.Signature.Results().At(0).Type()
+		}
+		return CVal{t, rt}, nil
+	case "perm": // perm(a, b): slice b is a permutation of slice a
+		args, err := evalArgs()
+		if err != nil {
+			return CVal{}, err
+		}
+		if len(args) != 2 || !isSlc(args[0].T.Sort) || args[0].T.Sort != args[1].T.Sort {
+			return CVal{}, fmt.Errorf("perm(a, b) needs two slices of the same type")
+		}
+		return CVal{Term{fc.permTerm(args[0].T, args[1].T), SBool}, nil}, nil
+	case "fmtany": // fmtany(v, "%verb"): the text fmt produces for the boxed value v under one verb
+		if len(x.Args) != 2 {
+			return CVal{}, fmt.Errorf("fmtany(v, \"%%verb\")")
+		}
+		v, err := env.eval(x.Args[0])
+		if err != nil {
+			return CVal{}, err
+		}
+		lit, ok := x.Args[1].(*ELit)
+		if !ok || len(lit.Val) < 2 || lit.Val[0] != '%' || v.T.Sort != SAny {
+			return CVal{}, fmt.Errorf("fmtany(v, \"%%verb\") needs an interface value and a constant verb")
+		}
+		verb := lit.Val[len(lit.Val)-1]
+		spec := lit.Val[1 : len(lit.Val)-1]
+		if t, ok := fc.fmtPadded(v.T, verb, spec); ok {
+			return CVal{t, types.Typ[types.String]}, nil
+		}
+		return CVal{fc.fmtArg(v.T, verb, spec), types.Typ[types.String]}, nil
 	case "smt": // smt("raw term", Sort)
 	}
 	switch x.Fn {
